@@ -33,14 +33,15 @@ abbrev Path := List Char
 
 /-! ### `String ↔ segments` glue -/
 
+/-- Put a character in front of the first segment. -/
+def pushChar (c : Char) : List Seg → List Seg
+  | [] => [[c]]
+  | s :: ss => (c :: s) :: ss
+
 /-- Split at every '/' (like `strings.Split(p, "/")`): n slashes give n+1 segments. -/
 def split : List Char → List Seg
   | [] => [[]]
-  | c :: cs =>
-    if c = '/' then [] :: split cs
-    else match split cs with
-      | [] => [[c]]
-      | s :: ss => (c :: s) :: ss
+  | c :: cs => if c = '/' then [] :: split cs else pushChar c (split cs)
 
 /-- `strings.Join(segs, "/")`. -/
 def join : List Seg → List Char
@@ -60,14 +61,18 @@ structure CS where
   stack : List Seg := []
 deriving Repr, DecidableEq
 
+/-- A ".." element: remove the last real element; when there is none, a rooted path stays at the root and
+a relative one keeps the "..". -/
+def popStep (rooted : Bool) (st : CS) : CS :=
+  match st.stack with
+  | _ :: rest => { st with stack := rest }
+  | [] => if rooted then st else { st with ups := st.ups + 1 }
+
 /-- One path element: "" and "." are dropped, ".." pops (or is kept in front when not rooted and nothing is
 left to pop; at the root it is dropped), anything else is pushed. -/
 def cleanStep (rooted : Bool) (st : CS) (s : Seg) : CS :=
   if s = [] ∨ s = dot then st
-  else if s = dotdot then
-    match st.stack with
-    | _ :: rest => { st with stack := rest }
-    | [] => if rooted then st else { st with ups := st.ups + 1 }
+  else if s = dotdot then popStep rooted st
   else { st with stack := s :: st.stack }
 
 def cleanSegs (rooted : Bool) (segs : List Seg) : List Seg :=
